@@ -11,6 +11,7 @@ inductive LTy where
   | int (bytes : Nat)        -- 1, 2, 4, 8, 16 (usize = 8, char8 = 1)
   | bool
   | ptr
+  | ptr32                    -- a pointer under the wasm32 data layout `e-p:32:32-i64:64-n32:64-S64` (usize is `int 4` there)
   | arr (n : Nat) (t : LTy)
   | struct (ms : LTys)       -- struct and word alike: an unpacked LLVM struct of the member types
 inductive LTys where
@@ -27,6 +28,7 @@ def alignOf : LTy → Nat
   | .int b => min b 8
   | .bool => 1
   | .ptr => 8
+  | .ptr32 => 4
   | .arr _ t => alignOf t
   | .struct ms => alignMax ms
 def alignMax : LTys → Nat
@@ -40,6 +42,7 @@ def sizeOf : LTy → Nat
   | .int b => b
   | .bool => 1
   | .ptr => 8
+  | .ptr32 => 4
   | .arr n t => n * sizeOf t
   | .struct ms => roundUp (layoutEnd 0 ms) (alignMax ms)
 /-- end offset after placing the members one after another from offset `off`, each at its alignment -/
@@ -70,6 +73,7 @@ def ofSexp : Nat → Sexp → Option LTy
     | .list [.atom "int", b] => do some (.int (← b.toNat?))
     | .atom "bool" => some .bool
     | .atom "ptr" => some .ptr
+    | .atom "ptr32" => some .ptr32
     | .list [.atom "arr", n, t] => do some (.arr (← n.toNat?) (← ofSexp k t))
     | .list (.atom "struct" :: ms) => do some (.struct (← ofSexps k ms))
     | _ => none
